@@ -232,15 +232,72 @@ def observe_bar(m, b, names):
     return obs
 
 
-def observe(case: Case, path=()):
-    """one observation per bar: the case's own bar, then every bar of `path` (token data of later bars) on the same market"""
+def user_ops(m, b, toks, ops):
+    """what the strategy does inside the bar, before the bar's update(): the views are read first (a strategy looks at its health factor before it
+    acts, so the market's caches are warm), then the operations run against the real market; a refusal is the strategy's business.
+    Liquidation is due on what the bar's END state says, whatever the views said earlier in the bar."""
+    m._record_action_callback = lambda a: None      # the user's own action records are not liquidation records
+    for o in ops:
+        try:
+            for v in ("health_factor", "borrows_value", "supplies_value", "collateral_value", "borrows", "supplies"):
+                getattr(m, v)
+        except Exception:  # noqa: BLE001
+            pass
+        t = toks[o["tok"]]
+        try:
+            if o["op"] in ("repay_full", "repay_part"):
+                b.set_balance(t, D(10) ** 30)           # funding the wallet is not an operation on the market
+                if o["op"] == "repay_full":
+                    m.repay(t)
+                else:
+                    m.repay(t, m.get_borrow(t).amount / 2)
+            elif o["op"] == "repay_with_collateral":
+                m.repay(t, None, True, toks[o["coll"]])
+            elif o["op"] == "supply":
+                b.set_balance(t, D(10) ** 30)
+                m.supply(t, D(o["amount"]), True)
+        except Exception:  # noqa: BLE001
+            pass
+
+
+def observe(case: Case, path=(), rescue=None):
+    """one observation per bar: the case's own bar, then every bar of `path` (token data of later bars) on the same market;
+    `rescue` = {bar number: [user operations made inside that bar before its update()]}"""
+    rescue = {int(k): v for k, v in (rescue or {}).items()}
     m, b, toks, _ = L.build(case)
+    if 0 in rescue:
+        user_ops(m, b, toks, rescue[0])
     out = [observe_bar(m, b, list(case.toks))]
-    for t in path:
+    for k, t in enumerate(path):
         if out[-1]["exc"] is not None:
             break
         L.set_bar(m, t)
+        if k + 1 in rescue:
+            user_ops(m, b, toks, rescue[k + 1])
         out.append(observe_bar(m, b, list(case.toks)))
+    return out
+
+
+def gen_rescue(rng, case: Case, nbars):
+    """user operations inside a bar that change whether liquidation is due at its end: a debt repaid in full (the position is rescued, or at
+    least one debt fewer is left), repaid in part or out of collateral, collateral topped up"""
+    out = {}
+    colls = [s[0] for s in case.supplies if s[2]]
+    for k in range(nbars):
+        if rng.random() < (0.8 if k == 0 else 0.4) and case.debts:
+            ops = []
+            for _ in range(rng.choice((1, 1, 2))):
+                kind = rng.choice(("repay_full", "repay_full", "repay_full", "repay_part", "supply", "repay_with_collateral"))
+                if kind == "supply" and colls:
+                    tok = rng.choice(colls)
+                    base = next(D(s[1]) for s in case.supplies if s[0] == tok)
+                    ops.append({"op": "supply", "tok": tok, "amount": str((base * D(rng.choice(("0.1", "1", "5")))).normalize() or D(1))})
+                elif kind == "repay_with_collateral" and colls:
+                    ops.append({"op": kind, "tok": rng.choice(case.debts)[0], "coll": rng.choice(colls)})
+                elif kind != "supply" and kind != "repay_with_collateral":
+                    ops.append({"op": kind, "tok": rng.choice(case.debts)[0]})
+            if ops:
+                out[str(k)] = ops
     return out
 
 
@@ -402,9 +459,12 @@ def end_reason(obs):
     return "all-visited"
 
 
-def check_case(ctx: Ctx, case: Case, stream, tag, reqs, path=()):
-    allobs = observe(case, path)
+def check_case(ctx: Ctx, case: Case, stream, tag, reqs, path=(), rescue=None):
+    allobs = observe(case, path, rescue)
     rep = {"case": case.to_json(), "stream": stream, "tag": tag, "path": list(path)}
+    if rescue:
+        rep["rescue"] = rescue
+        stream += "+userops"
     found = []
     for k, obs in enumerate(allobs):
         steps = "".join(("h" if a.health_factor_before > D("0.95") else "f") + ("c" if len([s for s in Q["supplies"] if s[0] == a.collateral_token]) == 0 else "u")
@@ -464,7 +524,10 @@ def run(ctx: Ctx):
         path = gen_path(ctx.rng, case) if stream == "random" and ctx.rng.random() < 0.3 else ()
         if tag == "accrue":
             path = gen_accrual_path(ctx.rng, case)
-        check_case(ctx, case, stream, tag, reqs, path)
+        rescue = None
+        if stream == "random" and tag in ("deep", "mid", "half", "at95") and len(case.debts) >= 1 and ctx.rng.random() < 0.35:
+            rescue = gen_rescue(ctx.rng, case, 1 + len(path)) or None
+        check_case(ctx, case, stream, tag, reqs, path, rescue)
     ctx.impl_traces = len(reqs)
     if ctx.driver_ok:
         out = driver_json([{"fn": "liquidate", "ctx": "py", "state": obs["state"]} for _, obs in reqs], exe="driver_aaverisk")
@@ -492,7 +555,7 @@ def run(ctx: Ctx):
 
 def replay(ctx: Ctx, case) -> bool:
     c = Case.from_json(case["case"])
-    v = check_case(Ctx(ctx.prop, ctx.tier, ctx.seed, False), c, case.get("stream", "random"), case.get("tag"), [], case.get("path") or ())
+    v = check_case(Ctx(ctx.prop, ctx.tier, ctx.seed, False), c, case.get("stream", "random"), case.get("tag"), [], case.get("path") or (), case.get("rescue"))
     for k, what in v:
         print("  ", k, what)
     return not v
